@@ -18,6 +18,7 @@ type G struct {
 	MaxWidth int
 	NullP    float64 // probability of a null scalar
 	ReqP     float64 // probability of a "$required" marker where a value goes
+	big      bool
 }
 
 func New(seed int64) *G {
@@ -32,6 +33,39 @@ func New(seed int64) *G {
 	}
 }
 
+// Big switches the generator to the LARGE regime: wide maps and long lists at
+// the upper levels (the width shrinks with depth, so that trees stay a few
+// hundred nodes), deeper nesting, and a key / string pool with non-ASCII and
+// multi-byte characters, keys that differ only in case or in Unicode
+// composition, keys whose byte order differs from a case-insensitive or
+// numeric order, long keys with a shared prefix.
+func (g *G) Big() *G {
+	g.big = true
+	g.MaxWidth = 8 + g.N(25)
+	g.MaxDepth = 4 + g.N(3)
+	long := "a-long-key-with-a-shared-prefix-that-goes-on-and-on-and-on-for-more-than-sixty-four-characters-"
+	g.Keys = append(g.Keys, "Name", "NAME", "name2", "name10", "a10", "a2", "A", "B", "Z", "_", "ä", "Ä", "ö", "ß", "\u00e9", "e\u0301", "日本", "日本語", "ключ",
+		"k 1", "k-1", "k_1", "0", "00", "10", "9", long+"1", long+"2", long+"10", "zz", "zzz", "é2", "x.y.z")
+	for i := 0; i < 24; i++ {
+		g.Keys = append(g.Keys, "k"+string(rune('a'+i%26))+string(rune('0'+i%10)))
+	}
+	g.Strs = append(g.Strs, "Ünïcödé", "e\u0301", "\u00e9", "日本語のテキスト", long, "ß", "ALLCAPS", "allcaps", "a much longer string value that contains spaces, commas, and: colons # and hashes")
+	return g
+}
+
+// width is the number of children at nesting level `d` below the root limit.
+func (g *G) width(d int) int {
+	if !g.big {
+		return g.MaxWidth
+	}
+	lvl := g.MaxDepth - d // 0 at the top
+	w := g.MaxWidth
+	for i := 0; i < lvl; i++ {
+		w = w/3 + 1
+	}
+	return w
+}
+
 func (g *G) P(p float64) bool { return g.R.Float64() < p }
 func (g *G) N(n int) int {
 	if n <= 0 {
@@ -42,6 +76,10 @@ func (g *G) N(n int) int {
 func (g *G) Pick(ss []string) string { return ss[g.R.Intn(len(ss))] }
 
 func (g *G) Int() int {
+	if g.P(0.08) {
+		// neighbours above 2^53 and at the end of the range: different integers, one double
+		return []int{1<<53 + 1, 1<<53 + 2, math.MaxInt64 - 1, math.MinInt64 + 1, 1700000000000000001, 1700000000000000000}[g.N(6)]
+	}
 	switch g.N(12) {
 	case 0:
 		return math.MaxInt64
@@ -85,7 +123,7 @@ func (g *G) Key() string { return g.Pick(g.Keys) }
 
 func (g *G) Map(d int) map[string]any {
 	m := map[string]any{}
-	n := g.N(g.MaxWidth + 1)
+	n := g.N(g.width(d) + 1)
 	for i := 0; i < n; i++ {
 		m[g.Key()] = g.Tree(d - 1)
 	}
@@ -94,7 +132,7 @@ func (g *G) Map(d int) map[string]any {
 
 func (g *G) List(d int) []any {
 	l := []any{}
-	n := g.N(g.MaxWidth + 1)
+	n := g.N(g.width(d) + 1)
 	// lists of similar maps are common in configuration and make patterns meaningful
 	if g.P(0.5) && d > 0 {
 		for i := 0; i < n; i++ {
